@@ -609,6 +609,14 @@ func recordOps(rec *recorder, rng *rand.Rand, trials int, repo string) int {
 			if attrs == nil {
 				attrs = []Attr{}
 			}
+			// element types: mostly float32, otherwise one other type for all float operands of the invocation
+			if alt := []string{"", "", "", "", "f64", "f64", "i32", "i64"}[rng.Intn(8)]; alt != "" {
+				for k := range inputs {
+					if !inputs[k].Nil && inputs[k].Dt == "f32" {
+						inputs[k].Dt = alt
+					}
+				}
+			}
 			c := &Case{Kind: "op", Op: op, Attrs: attrs, Inputs: inputs, Nout: nout}
 			var obs Observation
 			if op == "MultidirectionalBroadcast" || op == "UnidirectionalBroadcast" {
